@@ -2,7 +2,8 @@
 C01 — Simulated placements are feasible on every launch option.
 
 Property theorems only; lemmas in `Karp/Proofs/Sched.lean` (and the C12 algebra).
-Model: `Karp/Model/Sched.lean` (pod requirements, relaxation, ExistingNode.CanAdd/Add, instance-type filtering).
+Model: `Karp/Model/Sched.lean` (pod requirements, relaxation, ExistingNode.CanAdd/Add; for new NodeClaims: resource lists,
+       allocatable groups per offering override, `fits`, `compatible`, `filterInstanceTypesByRequirements` with its minValues tail).
 Spec:  `Karp/Spec/K8sSelector.lean` (Kubernetes selector semantics) and `Karp/Spec/Admissible.lean` (whole-pass
        admissibility, evaluated on every real scheduling pass by the `c01.pass` op).
 -/
@@ -211,32 +212,165 @@ theorem C01_existing_capacity (ps : List PodD) : ∀ (n : ExNode),
 
 /-! ## New NodeClaims: the instance types that survive filtering -/
 
-/-- **C01_filter_sound** — every instance type that survives `filterInstanceTypesByRequirements` was one of the options,
-    is compatible with the requirements, belongs to a daemon-overhead group whose host ports do not clash with the
-    pod's, fits the summed requests PLUS that group's daemon overhead, and has an available offering compatible with
-    the requirements. -/
-theorem C01_filter_sound (options : List ITM) (groups : List Group) (R : Reqs) (pp : List HostPort)
-    (cpu mem pods : Int) (wk : List String) (it : ITM)
-    (h : it ∈ filterITs options groups R pp cpu mem pods wk) :
+/-- **C01_fits_pair** — what the two results of `fits` mean, for every list of allocatable groups: `itFits` holds iff
+    ONE group both holds the requests and has an offering compatible with the requirements; `hasOffering` holds iff
+    some group has a compatible offering; hence `itFits` implies `hasOffering`. -/
+theorem C01_fits_pair (it : ITM) (req : ResList) (R : Reqs) (wk : List String) :
+    ((itFits it req R wk).1 = true ↔
+      ∃ ag ∈ it.groups, resFits req ag.alloc = true ∧ ∃ o ∈ ag.offerings, R.compatible o.reqs wk = true) ∧
+    ((itFits it req R wk).2 = true ↔ ∃ ag ∈ it.groups, ∃ o ∈ ag.offerings, R.compatible o.reqs wk = true) ∧
+    ((itFits it req R wk).1 = true → (itFits it req R wk).2 = true) := by
+  have h1 : (itFits it req R wk).1 = true ↔
+      ∃ ag ∈ it.groups, resFits req ag.alloc = true ∧ ∃ o ∈ ag.offerings, R.compatible o.reqs wk = true := by
+    unfold itFits
+    rw [fitsLoop_fst, List.any_eq_true]
+    constructor
+    · rintro ⟨ag, hag, hc⟩
+      rw [Bool.and_eq_true] at hc
+      obtain ⟨o, ho, hoc⟩ := List.any_eq_true.mp hc.1
+      exact ⟨ag, hag, hc.2, o, ho, hoc⟩
+    · rintro ⟨ag, hag, hf, o, ho, hoc⟩
+      exact ⟨ag, hag, by rw [Bool.and_eq_true]; exact ⟨List.any_eq_true.mpr ⟨o, ho, hoc⟩, hf⟩⟩
+  have h2 : (itFits it req R wk).2 = true ↔ ∃ ag ∈ it.groups, ∃ o ∈ ag.offerings, R.compatible o.reqs wk = true := by
+    unfold itFits
+    rw [fitsLoop_snd, Bool.false_or, List.any_eq_true]
+    constructor
+    · rintro ⟨ag, hag, hc⟩
+      obtain ⟨o, ho, hoc⟩ := List.any_eq_true.mp hc
+      exact ⟨ag, hag, o, ho, hoc⟩
+    · rintro ⟨ag, hag, o, ho, hoc⟩
+      exact ⟨ag, hag, List.any_eq_true.mpr ⟨o, ho, hoc⟩⟩
+  refine ⟨h1, h2, fun h => ?_⟩
+  obtain ⟨ag, hag, _, o, ho, hoc⟩ := h1.mp h
+  exact h2.mpr ⟨ag, hag, o, ho, hoc⟩
+
+/-- **C01_filter_sound** — every instance type that survives `filterInstanceTypesByRequirements` (for ANY options,
+    daemon-overhead groups, requirements, pod, requests and ANY allocatable groups per instance type)
+    (a) is one of the options and its requirements intersect the claim's,
+    (b) belongs to a daemon-overhead group whose host ports (reserved by other pods) do not conflict with the pod's, and
+    (c) has ONE allocatable group that contains an offering compatible with the requirements AND holds the summed
+        requests plus that daemon group's overhead: `resources.Fits` holds, in particular every resource satisfies
+        `total + daemon overhead ≤ allocatable` in that group. -/
+theorem C01_filter_sound (options : List ITM) (groups : List Group) (R : Reqs) (podKey : String) (pp : List HostPort)
+    (total : ResList) (wk : List String) (it : ITM)
+    (h : it ∈ filterITs options groups R podKey pp total wk) :
     it ∈ options ∧ itCompatible it R = true ∧
-    ∃ g ∈ groups, g.its.contains it.name = true ∧ portsFree g.ports pp = true ∧
-      ((cpu + g.dCPU ≤ it.allocCPU ∧ mem + g.dMem ≤ it.allocMem) ∧ pods + g.dPods ≤ it.allocPods) ∧
-      ∃ o ∈ it.offerings, o.available = true ∧ R.compatible o.reqs wk = true := by
+    ∃ g ∈ groups, g.its.contains it.name = true ∧ portsFree (g.portsOfOthers podKey) pp = true ∧
+      ∃ ag ∈ it.groups,
+        (∃ o ∈ ag.offerings, R.compatible o.reqs wk = true) ∧
+        resFits (resMerge total g.overhead) ag.alloc = true ∧
+        ∀ k, total.get k + g.overhead.get k ≤ ag.alloc.get k := by
   unfold filterITs at h
-  obtain ⟨g, hg, hin⟩ := List.mem_flatMap.mp h
-  by_cases hp : portsFree g.ports pp = true
-  · simp only [hp, Bool.not_true, Bool.false_eq_true, if_false] at hin
-    obtain ⟨hin1, hcond⟩ := List.mem_filter.mp hin
-    obtain ⟨hopt, hname⟩ := List.mem_filter.mp hin1
-    rw [Bool.and_eq_true] at hcond
-    obtain ⟨hcompat, hfits⟩ := hcond
-    unfold itFits at hfits
-    simp only [Bool.and_eq_true] at hfits
-    obtain ⟨hoff, hres⟩ := hfits
-    obtain ⟨o, ho, hoc⟩ := List.any_eq_true.mp hoff
-    obtain ⟨ho1, ho2⟩ := List.mem_filter.mp ho
-    exact ⟨hopt, hcompat, g, hg, hname, hp, by simpa only [fits, Bool.and_eq_true, decide_eq_true_eq] using hres, o, ho1, ho2, hoc⟩
-  · simp [hp] at hin
+  obtain ⟨c, hc, rfl⟩ := List.mem_map.mp h
+  obtain ⟨hcand, hmeets⟩ := List.mem_filter.mp hc
+  obtain ⟨hg, hp, n, hn, hf⟩ := (mem_filterCandidates options groups podKey pp c).mp hcand
+  have hmem : c.2 ∈ options := List.mem_of_find?_eq_some hf
+  have hname : c.2.name = n := by simpa using List.find?_some hf
+  unfold meetsAll criteria at hmeets
+  simp only [Bool.and_eq_true] at hmeets
+  obtain ⟨⟨hcompat, hfits⟩, _⟩ := hmeets
+  obtain ⟨ag, hag, hres, o, ho, hoc⟩ := (C01_fits_pair c.2 _ R wk).1.mp hfits
+  refine ⟨hmem, hcompat, c.1, hg, ?_, hp, ag, hag, ⟨o, ho, hoc⟩, hres, resFits_merge_le _ _ _ hres⟩
+  rw [hname]; simpa using hn
+
+/-- **C01_filter_complete** — the converse: an option (the only one of its name) that belongs to a daemon-overhead
+    group without a host-port conflict, whose requirements intersect the claim's, and that has one allocatable group
+    with a compatible offering in which the requests plus the group's overhead fit, survives. -/
+theorem C01_filter_complete (options : List ITM) (groups : List Group) (R : Reqs) (podKey : String) (pp : List HostPort)
+    (total : ResList) (wk : List String) (it : ITM)
+    (hmem : it ∈ options) (huniq : ∀ a ∈ options, a.name = it.name → a = it)
+    (hcompat : itCompatible it R = true)
+    (g : Group) (hg : g ∈ groups) (hin : g.its.contains it.name = true)
+    (hp : portsFree (g.portsOfOthers podKey) pp = true)
+    (ag : AllocGroup) (hag : ag ∈ it.groups)
+    (o : OfferingM) (ho : o ∈ ag.offerings) (hoc : R.compatible o.reqs wk = true)
+    (hres : resFits (resMerge total g.overhead) ag.alloc = true) :
+    it ∈ filterITs options groups R podKey pp total wk := by
+  have hfind : options.find? (fun a => a.name == it.name) = some it := by
+    cases hf : options.find? (fun a => a.name == it.name) with
+    | none =>
+      have := List.find?_eq_none.mp hf it hmem
+      simp at this
+    | some a =>
+      have ha : a ∈ options := List.mem_of_find?_eq_some hf
+      have hn : a.name = it.name := by simpa using List.find?_some hf
+      rw [huniq a ha hn]
+  unfold filterITs
+  refine List.mem_map.mpr ⟨(g, it), List.mem_filter.mpr ⟨?_, ?_⟩, rfl⟩
+  · exact (mem_filterCandidates options groups podKey pp (g, it)).mpr ⟨hg, hp, it.name, by simpa using hin, hfind⟩
+  · have hpair := C01_fits_pair it (resMerge total g.overhead) R wk
+    have h1 : (itFits it (resMerge total g.overhead) R wk).1 = true := hpair.1.mpr ⟨ag, hag, hres, o, ho, hoc⟩
+    have h2 := hpair.2.2 h1
+    simp only [meetsAll, criteria, Bool.and_eq_true]
+    exact ⟨⟨hcompat, h1⟩, h2⟩
+
+/-- **C01_groups_exact** — `precompute` / `groupOfferingsByOverride`: every offering of every allocatable group is an
+    AVAILABLE offering of the instance type and the group's allocatable is exactly what a launch through that offering
+    gets (capacity and overhead with that offering's overrides); conversely every available offering sits in such a
+    group; and the first group is the base allocatable. -/
+theorem C01_groups_exact (raw : ITRaw) :
+    (∀ ag ∈ allocGroups raw, ∀ om ∈ ag.offerings,
+      ∃ o ∈ raw.offerings, o.available = true ∧ o.toM = om ∧ ag.alloc = allocFor raw o) ∧
+    (∀ o ∈ raw.offerings, o.available = true → ∃ ag ∈ allocGroups raw, o.toM ∈ ag.offerings ∧ ag.alloc = allocFor raw o) ∧
+    (∃ g0 rest, allocGroups raw = g0 :: rest ∧ g0.alloc = computeAlloc raw [] none) := by
+  refine ⟨fun ag hag om hom => allocGroups_sound raw ag hag om hom, fun o ho hav => allocGroups_complete raw o ho hav, ?_⟩
+  obtain ⟨rest, h⟩ := allocGroups_base_first raw
+  exact ⟨_, rest, h, rfl⟩
+
+/-- **C01_launch_sound** — the property for a new NodeClaim, over instance types as the cloud provider describes them
+    (capacity, overhead, offerings with per-offering capacity / overhead overrides): every instance type that survives
+    the filter can be launched through an AVAILABLE offering that is compatible with the claim's requirements and whose
+    OWN allocatable holds, resource by resource, the summed requests plus the daemon overhead of a daemon group the
+    instance type belongs to and whose host ports do not conflict with the pod's. -/
+theorem C01_launch_sound (raws : List ITRaw) (groups : List Group) (R : Reqs) (podKey : String) (pp : List HostPort)
+    (total : ResList) (wk : List String) (it : ITM)
+    (h : it ∈ filterITs (raws.map ITRaw.toITM) groups R podKey pp total wk) :
+    ∃ raw ∈ raws, it = raw.toITM ∧ raw.reqs.intersects R = true ∧
+    ∃ g ∈ groups, g.its.contains raw.name = true ∧ portsFree (g.portsOfOthers podKey) pp = true ∧
+      ∃ o ∈ raw.offerings, o.available = true ∧ R.compatible o.reqs wk = true ∧
+        ∀ k, total.get k + g.overhead.get k ≤ (allocFor raw o).get k := by
+  obtain ⟨hopt, hcompat, g, hg, hin, hp, ag, hag, ⟨om, hom, hoc⟩, _, hle⟩ :=
+    C01_filter_sound _ groups R podKey pp total wk it h
+  obtain ⟨raw, hraw, rfl⟩ := List.mem_map.mp hopt
+  obtain ⟨o, ho, hav, rfl, halloc⟩ := allocGroups_sound raw ag hag om hom
+  exact ⟨raw, hraw, rfl, hcompat, g, hg, hin, hp, o, ho, hav, hoc, by rw [← halloc]; exact hle⟩
+
+/-- **C01_launch_complete** — conversely, an instance type (the only one of its name) with an available compatible
+    offering whose own allocatable passes `resources.Fits` for the requests plus the overhead of a conflict-free daemon
+    group it belongs to, and whose requirements intersect the claim's, survives the filter. -/
+theorem C01_launch_complete (raws : List ITRaw) (groups : List Group) (R : Reqs) (podKey : String) (pp : List HostPort)
+    (total : ResList) (wk : List String) (raw : ITRaw)
+    (hmem : raw ∈ raws) (huniq : ∀ a ∈ raws, a.name = raw.name → a = raw)
+    (hcompat : raw.reqs.intersects R = true)
+    (g : Group) (hg : g ∈ groups) (hin : g.its.contains raw.name = true)
+    (hp : portsFree (g.portsOfOthers podKey) pp = true)
+    (o : OfferingRaw) (ho : o ∈ raw.offerings) (hav : o.available = true) (hoc : R.compatible o.reqs wk = true)
+    (hres : resFits (resMerge total g.overhead) (allocFor raw o) = true) :
+    raw.toITM ∈ filterITs (raws.map ITRaw.toITM) groups R podKey pp total wk := by
+  obtain ⟨ag, hag, hom, halloc⟩ := allocGroups_complete raw o ho hav
+  refine C01_filter_complete _ groups R podKey pp total wk raw.toITM (List.mem_map.mpr ⟨raw, hmem, rfl⟩) ?_ hcompat
+    g hg hin hp ag hag o.toM hom hoc (by rw [halloc]; exact hres)
+  intro a ha hn
+  obtain ⟨r, hr, rfl⟩ := List.mem_map.mp ha
+  rw [huniq r hr hn]
+
+/-- **C01_filter_result** — the minValues tail only ever shrinks the result: what `filterInstanceTypesByRequirements`
+    returns is the filtered list or nothing; an error is returned exactly when nothing remains; under the strict policy
+    a violated minValues leaves nothing; under the relaxing policy the filtered list is returned unchanged. -/
+theorem C01_filter_result (options : List ITM) (groups : List Group) (R : Reqs) (podKey : String) (pp : List HostPort)
+    (total : ResList) (wk : List String) (relax : Bool) :
+    ((filterResult options groups R podKey pp total wk relax).remaining = filterITs options groups R podKey pp total wk ∨
+      (filterResult options groups R podKey pp total wk relax).remaining = []) ∧
+    ((filterResult options groups R podKey pp total wk relax).err.isSome = true ↔
+      (filterResult options groups R podKey pp total wk relax).remaining = []) ∧
+    (relax = false → (filterResult options groups R podKey pp total wk relax).unsat ≠ [] →
+      (filterResult options groups R podKey pp total wk relax).remaining = []) ∧
+    (relax = true →
+      (filterResult options groups R podKey pp total wk relax).remaining = filterITs options groups R podKey pp total wk) := by
+  simp only [filterResult]
+  generalize filterITs options groups R podKey pp total wk = rem
+  generalize (if hasMinValues R = true then minValuesUnsat rem R else []) = unsat
+  cases unsat <;> cases relax <;> cases rem <;> simp
 
 /-! ## The recorded findings: the full statement is false for the code as it is -/
 
@@ -277,5 +411,53 @@ example : existingCanAdd nodeZ { podOK with cpu := 1001 } = false := by decide
 example : existingCanAdd nodeZ { podOK with ports := [{ port := 8080, proto := "TCP", ip := "10.0.0.1" }] } = false := by decide
 example : existingCanAdd nodeZ { podOK with tolerations := [] } = false := by decide
 example : (∀ e ∈ podOK.exprs, validExpr e = true) := by decide
+
+/-! ### Non-vacuity for the NodeClaim filter: a two-group instance type -/
+
+def zoneKey := "topology.kubernetes.io/zone"
+def itKey := "node.kubernetes.io/instance-type"
+def inReq (k : String) (vs : List String) : String × Req := (k, { key := k, complement := false, values := vs })
+def offeringIn (z : String) (capOverride : ResList := []) (available := true) : OfferingRaw :=
+  { reqs := [inReq zoneKey [z], inReq Karp.Gen.Labels.capacityTypeLabelKey ["on-demand"]], available := available,
+    capOverride := capOverride }
+
+/-- 4 vCPU sold as such in z1, but in z2 only with a CapacityOverride of 2 vCPU: two allocatable groups -/
+def flexIT : ITRaw :=
+  { name := "flex", reqs := [inReq itKey ["flex"], inReq zoneKey ["z1", "z2"]],
+    capacity := [("cpu", 4000), ("memory", 8192), ("pods", 10)], overhead := [("cpu", 100)],
+    offerings := [offeringIn "z1", offeringIn "z2" [("cpu", 2000)]] }
+def bigIT : ITRaw :=
+  { name := "big", reqs := [inReq itKey ["big"], inReq zoneKey ["z1", "z2"]],
+    capacity := [("cpu", 8000), ("memory", 16384), ("pods", 10)], overhead := [("cpu", 100)],
+    offerings := [offeringIn "z1", offeringIn "z2"] }
+def dsGroup : Group :=
+  { its := ["flex", "big"], overhead := [("cpu", 200), ("pods", 1)],
+    usage := [("ds-exporter", [{ port := 9100, proto := "TCP", ip := "" }])] }
+def wantZ (z : String) : Reqs := [inReq zoneKey [z]]
+def req3cpu : ResList := [("cpu", 3000), ("pods", 1)]
+def wk := Karp.Gen.Labels.wellKnownLabels
+
+/-- the two groups of `flex`: base (3900m) with the z1 offering, override (1900m) with the z2 offering -/
+example : (allocGroups flexIT).map (fun g => (g.alloc.get "cpu", g.offerings.length)) = [(3900, 1), (1900, 1)] := by decide
+/-- the roomy group is incompatible with "zone z2", the compatible group is too small: `flex` is filtered out,
+    `big` survives (`fits` = (false, true) for `flex`) -/
+example : (filterITs [flexIT.toITM, bigIT.toITM] [dsGroup] (wantZ "z2") "pod-a" [] req3cpu wk).map (·.name) = ["big"] := by decide
+example : itFits flexIT.toITM (resMerge req3cpu dsGroup.overhead) (wantZ "z2") wk = (false, true) := by decide
+/-- the same request aimed at z1 keeps both -/
+example : (filterITs [flexIT.toITM, bigIT.toITM] [dsGroup] (wantZ "z1") "pod-a" [] req3cpu wk).map (·.name) = ["flex", "big"] := by decide
+/-- a smaller request fits the override group as well -/
+example : (filterITs [flexIT.toITM, bigIT.toITM] [dsGroup] (wantZ "z2") "pod-a" [] [("cpu", 1700), ("pods", 1)] wk).map (·.name) = ["flex", "big"] := by decide
+/-- the daemon overhead counts: 1800m + 200m of daemons do not fit 1900m -/
+example : (filterITs [flexIT.toITM, bigIT.toITM] [dsGroup] (wantZ "z2") "pod-a" [] [("cpu", 1800), ("pods", 1)] wk).map (·.name) = ["big"] := by decide
+/-- a host port of the pod that a daemon of the group already uses skips the whole group; the same entry owned by
+    the pod itself does not -/
+example : filterITs [flexIT.toITM, bigIT.toITM] [dsGroup] (wantZ "z1") "pod-a" [{ port := 9100, proto := "TCP", ip := "10.0.0.1" }] req3cpu wk = [] := by decide
+example : (filterITs [flexIT.toITM, bigIT.toITM] [dsGroup] (wantZ "z1") "ds-exporter" [{ port := 9100, proto := "TCP", ip := "10.0.0.1" }] req3cpu wk).map (·.name) = ["flex", "big"] := by decide
+/-- an unavailable offering is in no group; requirements nothing offers leave nothing and set the error -/
+example : (allocGroups { flexIT with offerings := [offeringIn "z1" [] false, offeringIn "z2" [("cpu", 2000)]] }).map (·.offerings.length) = [0, 1] := by decide
+example : (filterResult [flexIT.toITM, bigIT.toITM] [dsGroup] (wantZ "z3") "pod-a" [] req3cpu wk false).err.isSome = true := by decide
+/-- the hypotheses of `C01_launch_complete` are met by `big` through its z2 offering -/
+example : bigIT.reqs.intersects (wantZ "z2") = true ∧ (wantZ "z2").compatible (offeringIn "z2").reqs wk = true ∧
+    resFits (resMerge req3cpu dsGroup.overhead) (allocFor bigIT (offeringIn "z2")) = true := by decide
 
 end Karp.C01
